@@ -1,7 +1,8 @@
 (* C01 — property theorems.  Only statements, each closed by [exact], each followed by
    Print Assumptions.  Costs are integers (dyadic floats scaled by 2^30; 2^-26 is 16). *)
 From Coq Require Import ZArith List Bool.
-From Centro Require Import Base.Sx Model.Lapjv Spec.Lapjv Proofs.LapjvCert Proofs.LapjvRefute.
+From Centro Require Import Base.Sx Model.Lapjv Spec.Lapjv Proofs.LapjvCert Proofs.LapjvRefute Proofs.LapjvTrack
+  Proofs.LapjvPhases.
 Import ListNotations.
 Open Scope Z_scope.
 
@@ -62,3 +63,27 @@ Print Assumptions C01_tracker_injective_pm.
 Theorem C01_track_ok_sound : forall ps, track_ok ps = true -> Injective ps.
 Proof. exact track_ok_sound. Qed.
 Print Assumptions C01_track_ok_sound.
+
+(* identity clause at the level of the assignment problem: zero diagonal, non-negative costs,
+   strictly positive off-diagonal costs in the m object rows => every optimal matching fixes the
+   m objects.  _partial: that calculate_costs produces such a matrix for identical frames with
+   pairwise distinct (centroid, area) is float arithmetic (sqrt) and is not proved; the check
+   tests it on the identical-frame stream. *)
+Theorem C01_tracker_identity_partial : forall n m tri,
+  (m <= n)%nat ->
+  (forall t, In t tri -> 0 <= t_c t) ->
+  (forall i, (i < n)%nat -> cost tri i i = Some 0) ->
+  (forall i j c, (i < m)%nat -> j <> i -> cost tri i j = Some c -> 0 < c) ->
+  forall x, Optimal n tri x -> forall i, (i < m)%nat -> col x i = i.
+Proof. exact tracker_identity. Qed.
+Print Assumptions C01_tracker_identity_partial.
+
+(* phase 1 of the model (lapjv.py:81-113): after column reduction the prices are dual feasible and
+   every assigned row sits on a listed pair of reduced cost zero (invariant SlackV in v only) *)
+Theorem C01_column_reduction_inv : forall n tri,
+  (forall t, In t tri -> (t_j t < n)%nat ->
+     exists c, gete (v_init n tri) (t_j t) = Fin c /\ 0 <= t_c t - c) /\
+  (forall i j, getn (x_init n (min_i n tri)) i n = j -> j <> n ->
+     (j < n)%nat /\ exists c, gete (v_init n tri) j = Fin c /\ In (i, j, c) tri).
+Proof. exact column_reduction_inv. Qed.
+Print Assumptions C01_column_reduction_inv.
